@@ -1,6 +1,7 @@
 import LassoProofs.C02
 import LassoModel.Extracted
 import LassoProofs.Lemmas.Config
+import LassoProofs.Lemmas.InternInterp
 /-
   C07 — failed interning changes nothing; exhaustion is reported exactly at capacity.
 
@@ -131,6 +132,17 @@ theorem rodeo_failures_precede_mutation :
     Extracted.rodeoInternEffects = [.hashOne, .probe, .keyCheck, .store, .stringsPush, .tableInsert] ∧
     Extracted.rodeoInternStaticEffects = [.hashOne, .probe, .keyCheck, .stringsPush, .tableInsert] := by
   decide
+
+/-- The single-threaded interner's two interning functions *are* their regenerated effect sequences: the
+sequences are given a semantics (`LassoModel/InternInterp.lean`: hash; probe - an occupied entry returns its key at
+once; key check for the next position with the key-space error; store with the memory error, copying path only;
+push; table insert under the hash, with the re-hash closure over the new vector) and running them equals
+`Rodeo.tryIntern` / `Rodeo.tryInternStatic` for every state, string and growth oracle.  Every theorem about the
+model functions is therefore a theorem about what the source's statements do in the source's order. -/
+theorem interning_runs_the_source (env : Env) (r : Rodeo) (grow : Bool) :
+    (∀ x, interpIntern env Extracted.rodeoInternEffects r x grow = r.tryIntern env x grow) ∧
+    (∀ i, interpInternStatic env Extracted.rodeoInternStaticEffects r i grow = r.tryInternStatic env i grow) :=
+  ⟨fun x => interp_intern_is_model env r x grow, fun i => interp_intern_static_is_model env r i grow⟩
 
 /-- The code this file's theorems are about is the same under every feature configuration: the regenerated
 census of conditional compilation contains import blocks, whole serde impls, optional-dependency impls and
